@@ -313,7 +313,7 @@ pub fn run_memory(ctx: &Ctx) {
 pub fn run_sockets(ctx: &Ctx) {
     let nconn = ctx.tier.pick(300usize, 10_000usize);
     for (ti, &tr) in [Transport::UnixPath, Transport::Tcp].iter().enumerate() {
-        for &mode in &[UpMode::Drain, UpMode::Line] {
+        for &mode in &[UpMode::Drain, UpMode::Line, UpMode::OneLine] {
             let log = new_log();
             let mut server = match Server::start(standard_service(SvcCfg { log: Some(log.clone()), up: mode, ..Default::default() }), tr, ServerCfg::default()) {
                 Ok(s) => s,
@@ -328,7 +328,12 @@ pub fn run_sockets(ctx: &Ctx) {
             }
             let mut rng = Rng::lane(ctx.seed, (ti * 10) as u64 + 300 + mode as u64);
             let refsvc = standard_service(SvcCfg { up: mode, ..Default::default() });
+            let mut stalls = 0usize;
             for i in 0..nconn / 4 {
+                // a broken tree can make every case sit through its watchdog: enough is enough
+                if ctx.violations() >= 3 || stalls >= 5 {
+                    break;
+                }
                 // upgraded cases are sequential so that the shared server log is unambiguous
                 let st = gen_stream(&mut rng, if i % 2 == 0 { 3 } else { i });
                 let n = st.bytes.len();
@@ -371,6 +376,7 @@ pub fn run_sockets(ctx: &Ctx) {
                     conn.read_to_eof(Duration::from_secs(20))
                 });
                 if !eof {
+                    stalls += 1;
                     ctx.inconclusive(json!({"why": "no EOF within 20 s after half-close", "stream": st.desc}));
                     continue;
                 }
@@ -391,6 +397,17 @@ pub fn run_sockets(ctx: &Ctx) {
                         let pay = &st.bytes[at..];
                         let (got, _) = up_received(&log);
                         let unread: Vec<u8> = log.lock().unwrap().iter().rev().find_map(|e| if let Ev::UpUnread(b) = e { Some(b.clone()) } else { None }).unwrap_or_default();
+                        if mode == UpMode::OneLine {
+                            // the handler returns after every line; whether bytes it did not consume
+                            // are offered again is not specified — but nothing may arrive twice or
+                            // out of order (in memory judged the same way)
+                            if !is_subsequence_in_order(&got, pay) {
+                                ctx.violation("c02:upgrade-bytes-duplicated-or-reordered", wit(&st, &cuts, mode, &format!("{:?}", tr), format!("listen(): the {} bytes delivered to the one-line handler are not an in-order subsequence of the {} payload bytes", got.len(), pay.len()), &fake));
+                            } else {
+                                ctx.count("skipped_unspecified", 1);
+                            }
+                            continue;
+                        }
                         let ok = match mode {
                             UpMode::Drain => got == pay,
                             _ => {
